@@ -146,63 +146,6 @@ func quoteList(l []string) string {
 
 func (c *ctx) modeFacts() {}
 
-// verifyindex.go: the batching arithmetic of the feeder loop
-func (c *ctx) verifyIndexFacts() {
-	c.lean.WriteString("\n/-! verifyindex.go: batches handed to the workers -/\n")
-	var batchE, stepE, lastE, clampCond, clampVal, sliceLo, sliceHi ast.Expr
-	if fd := c.funcDecl(c.files, "", "VerifyIndex"); fd != nil {
-		walk(fd.Body, func(n ast.Node) bool {
-			switch t := n.(type) {
-			case *ast.AssignStmt:
-				if len(t.Lhs) == 1 && len(t.Rhs) == 1 {
-					switch exprString(t.Lhs[0]) {
-					case "batch":
-						if batchE == nil {
-							batchE = t.Rhs[0]
-						}
-					}
-				}
-			case *ast.ForStmt:
-				if t.Post == nil {
-					return true
-				}
-				if as, ok := t.Post.(*ast.AssignStmt); ok && len(as.Lhs) == 1 && exprString(as.Lhs[0]) == "i" {
-					stepE = as.Rhs[0]
-					for _, st := range t.Body.List {
-						switch u := st.(type) {
-						case *ast.AssignStmt:
-							if len(u.Lhs) == 1 && exprString(u.Lhs[0]) == "last" {
-								lastE = u.Rhs[0]
-							}
-						case *ast.IfStmt:
-							if strings.Contains(exprString(u.Cond), "last") && len(u.Body.List) == 1 {
-								if as2, ok := u.Body.List[0].(*ast.AssignStmt); ok && exprString(as2.Lhs[0]) == "last" {
-									clampCond, clampVal = u.Cond, as2.Rhs[0]
-								}
-							}
-						}
-					}
-					walk(t.Body, func(m ast.Node) bool {
-						if se, ok := m.(*ast.SliceExpr); ok && exprString(se.X) == "idx.Chunks" {
-							sliceLo, sliceHi = se.Low, se.High
-						}
-						return true
-					})
-				}
-			}
-			return true
-		})
-	}
-	env := map[string]string{"chunksNum": "c", "n": "n", "i": "i", "batch": "batch", "last": "last"}
-	c.emitExpr("verify_batch", "vBatch", "(c n : Nat)", "Nat", batchE, env, "0")
-	c.emitExpr("verify_step", "vStep", "(i batch : Nat)", "Nat", stepE, env, "0")
-	c.emitExpr("verify_last", "vLast", "(i batch : Nat)", "Nat", lastE, env, "0")
-	c.emitExpr("verify_clampCond", "vClampCond", "(last c : Nat)", "Bool", clampCond, env, "false")
-	c.emitExpr("verify_clampVal", "vClampVal", "(c : Nat)", "Nat", clampVal, env, "0")
-	c.emitExpr("verify_sliceLo", "vSliceLo", "(i : Nat)", "Nat", sliceLo, env, "0")
-	c.emitExpr("verify_sliceHi", "vSliceHi", "(last : Nat)", "Nat", sliceHi, env, "0")
-}
-
 // callShape lists, in source order, the calls inside fd whose callee (as printed) ends with one
 // of the given suffixes; the label of the matching pattern is recorded.
 func (c *ctx) callShape(fd *ast.FuncDecl, pats [][2]string) []string {
